@@ -18,6 +18,8 @@ import c08lib as L
 # ---- flank sets ------------------------------------------------------------------------------
 FLANKS = {
     'std': (L.LEFT, L.TOKENS, L.RIGHT),
+    # no left flank: the token string starts at transcript position 0 (an ORF whose start is the first base)
+    'nol': ('', L.TOKENS, L.RIGHT),
     # rules with a multi-residue look-behind: tokens/flanks chosen so that the rule's window can be
     # completed across the start codon (the graph digests in the context of upstream residues)
     'casp3': ('GCATGGCTGAT', ['ATG', 'GAT', 'CAA', 'GCT', 'AAA', 'TAA', 'G', 'GC'], 'CAAGATGCTGCTAAATAAGC'),
@@ -94,6 +96,9 @@ def plan(run):
         for k in range(0, 4):
             for toks in strings(FLANKS[fs][1], k):
                 jobs.append(('lookbehind-k<=3', 'base', fs, toks, special_cfgs(fs)))
+    for k in range(1, 4):
+        for toks in strings(std, k):
+            jobs.append(('noleft-k<=3', 'base', 'nol', toks, [CFG_A, CFG_B]))
     # thorough space beyond base, in complete sub-blocks
     subs5 = [(a, b) for a in std for b in std]
     if run.tier == 'thorough':
@@ -229,7 +234,7 @@ def main():
         key = f'{m}@{cid}|{cfg_str(cfg)}' if sub == 'base' else f'{m}@{sub}@{cid}|{cfg_str(cfg)}'
         run.violation(key, f'{m}: tokens={cid} options={cfg_str(cfg)} detail={det}',
                       dict(tokens=list(toks), flanks=fs, cfg=cfg, detail=det, mechanism=m))
-    order = ['options-k<=3', 'selection-k<=2', 'layout-k<=2', 'core-k=4', 'lookbehind-k<=3', 'core-k=5',
+    order = ['options-k<=3', 'selection-k<=2', 'layout-k<=2', 'core-k=4', 'lookbehind-k<=3', 'noleft-k<=3', 'core-k=5',
              'options-k=4', 'lookbehind-k=4']
     for name in order:
         if name in blocks:
